@@ -1,2 +1,3 @@
 from harness.corecheck import make
-MODULE = make("C02", ["CircusProofs/Props/C02.lean"], ["CircusProofs/Lemmas/Core.lean"])
+MODULE = make("C02", ["CircusProofs/Props/C02.lean"],
+              ["CircusProofs/Core/Pres.lean", "CircusProofs/Core/Generic.lean"])
